@@ -1,2 +1,2 @@
 // GENERATED: field types whose own encoders are not under contract in this unit
-ser_opaque!(AnchorDataHash, Ed25519KeyHashes, Ed25519Signature, GenesisDelegateHash, GenesisHash, Int, NativeScripts, PoolMetadataHash, ProtocolParamUpdate, RewardAddress, TransactionHash, VRFKeyHash, Vkey);
+ser_opaque!(AnchorDataHash, Ed25519Signature, GenesisDelegateHash, GenesisHash, Int, NativeScripts, PoolMetadataHash, ProtocolParamUpdate, RewardAddress, TransactionHash, VRFKeyHash, Vkey);
